@@ -5,6 +5,7 @@ biased towards start attempts that fail early / late, spawn failures at every re
 Monitor: a policy oracle written from the property statement, evaluated on the implementation's fork log and
 PROCESS_STATE notifications.
 """
+import os
 import proc_l1
 from proc_l1 import L1, op_line, cfg_line, gen_cfg, TICK
 from props import c01
@@ -18,9 +19,13 @@ TRUSTED = c01.TRUSTED
 ASSUMPTIONS = c01.ASSUMPTIONS + [
     "under clock jumps 'alive longer than startsecs' / 'k seconds after the k-th failure' are read against the re-based reference time min(reference, first reading after the jump [+ k])",
     "the clock never reads 0 (autostart-once uses laststart = 0 as 'never started')"]
+RULE_TEXT = ("; a second population takes the configuration from TEXT: a [program:x] section whose startsecs / startretries / autostart / "
+             "autorestart / exitcodes (absent, present-but-empty = no expected status, one, several) / stopsignal / stopwaitsecs / stopasgroup / "
+             "killasgroup lines are written by the generator, parsed by the real ServerOptions, the resulting ProcessConfig driven through the same "
+             "histories and judged by what the text says")
 RULE = ("operation histories biased towards the start/retry cycle: children exiting before/after startsecs with any status, spawn "
         "failures of the three kinds at any retry, passes just before/at/after the retry time, long gaps, backward jumps, daemon "
-        "moods, explicit start/stop between retries; non-trivial = at least one automatic fork or BACKOFF; distinct = distinct trace")
+        "moods, explicit start/stop between retries; non-trivial = at least one automatic fork or BACKOFF; distinct = distinct trace" + RULE_TEXT)
 
 
 def monitor(ctx, cfg, ops, lines):
@@ -169,9 +174,84 @@ def gen_ops_c03(rng, cfg):
     return gen
 
 
-def one_history(ctx, rng, nops, cfg=None, script=None):
+# ---- the policy as WRITTEN in a configuration file --------------------------------------------------------------------
+# option -> [(text or None for an absent line, what the documentation says that denotes)]
+WRITTEN = {
+    'startsecs': [(None, 1), ('0', 0), ('1', 1), ('2', 2), ('5', 5)],
+    'startretries': [(None, 3), ('0', 0), ('1', 1), ('2', 2), ('3', 3)],
+    'autostart': [(None, True), ('true', True), ('false', False)],
+    'autorestart': [(None, 'unexpected'), ('unexpected', 'unexpected'), ('true', 'true'), ('false', 'false')],
+    'exitcodes': [(None, [0]), ('', []), ('', []), ('0', [0]), ('2', [2]), ('0,2', [0, 2]), ('1', [1]), ('2,0', [2, 0])],
+    'stopsignal': [(None, 15), ('TERM', 15), ('INT', 2), ('HUP', 1), ('QUIT', 3), ('KILL', 9), ('USR1', 10)],
+    'stopwaitsecs': [(None, 10), ('0', 0), ('1', 1), ('3', 3)],
+}
+
+
+def gen_written(rng):
+    """-> ([(option, text)] of a [program:p] section, the configuration those lines denote)"""
+    opts, cfg = [('command', '/bin/prog')], {}
+    for k in sorted(WRITTEN):
+        text, val = rng.choice(WRITTEN[k])
+        cfg[k] = val
+        if text is not None:
+            opts.append((k, text))
+    r = rng.random()
+    sg, kg = (None, None) if r < 0.5 else ('true', None) if r < 0.65 else ('true', 'true') if r < 0.8 else (None, 'true') if r < 0.9 else ('false', 'false')
+    cfg['stopasgroup'] = sg == 'true'
+    cfg['killasgroup'] = (kg == 'true') if kg is not None else cfg['stopasgroup']      # documented: stopasgroup implies killasgroup
+    opts += [(k, v) for k, v in (('stopasgroup', sg), ('killasgroup', kg)) if v is not None]
+    head = opts[:1]; tail = opts[1:]; rng.shuffle(tail)
+    return head + tail, cfg
+
+
+def parsed_cfg(ctx, opts):
+    """the section through the real parser: -> the L1 configuration of the ProcessConfig it yields (None: rejected)"""
+    import config_l1 as L
+    path = L.write_config({'sections': [('supervisord', []), ('program:p', opts)], 'include': []}, ctx.scratch, 'c03')
+    out = L.parse_with(L.make_options(), path, reread=True)
+    if out.status != 'ok':
+        return None, out
+    p = out.options.process_group_configs[0].process_configs[0]
+    ar = {'always': 'true', 'never': 'false', 'unexpected': 'unexpected'}[L._restart(p.autorestart)]
+    return {'startsecs': p.startsecs, 'startretries': p.startretries, 'autostart': bool(p.autostart), 'autorestart': ar,
+            'exitcodes': list(p.exitcodes), 'stopsignal': int(p.stopsignal), 'stopwaitsecs': p.stopwaitsecs,
+            'stopasgroup': bool(p.stopasgroup), 'killasgroup': bool(p.killasgroup)}, out
+
+
+def written_history(ctx, rng, nops, opts, cfg, script=None):
+    """one history of the process the TEXT configures, judged (monitor, model) by what the text denotes"""
+    impl_cfg, out = parsed_cfg(ctx, opts)
+    written = dict(cfg, written=[list(o) for o in opts])
+    if impl_cfg is None:
+        ctx.violation('wellformed-policy-rejected', 'the section %r is rejected: %s' % (opts, out.message[:160]), {'cfg': written, 'ops': []})
+        return None
+    ctx.count('written:exitcodes=' + {None: 'absent'}.get(dict(opts).get('exitcodes'), dict(opts).get('exitcodes') or 'empty'))
+    return one_history(ctx, rng, nops, written, script, impl_cfg=impl_cfg)
+
+
+# seeded change C03-7 (`exitcodes=` read as `0`): the demo's four programs, child reaches RUNNING and exits 0 / 2
+def _exit_script(es):
+    t = 1000 * TICK
+    return [{'op': 'transition', 'now': t, 'mood': 1, 'spawn': ('ok', 301), 'kill': 'ok'},
+            {'op': 'transition', 'now': t + 3 * TICK, 'mood': 1, 'spawn': ('ok', 302), 'kill': 'ok'},
+            {'op': 'reap', 'now': t + 4 * TICK, 'es': es, 'busy': False},
+            {'op': 'transition', 'now': t + 5 * TICK, 'mood': 1, 'spawn': ('ok', 303), 'kill': 'ok'}]
+
+
+def _written_corpus():
+    base = {'startsecs': 1, 'startretries': 3, 'autostart': True, 'autorestart': 'unexpected', 'stopsignal': 15, 'stopwaitsecs': 10,
+            'stopasgroup': False, 'killasgroup': False}
+    out = []
+    for text, val in ((None, [0]), ('', []), ('0', [0]), ('2', [2]), ('0,2', [0, 2])):
+        opts = [('command', '/bin/prog'), ('autorestart', 'unexpected')] + ([('exitcodes', text)] if text is not None else [])
+        for es in (0, 2):
+            out.append((opts, dict(base, exitcodes=val), _exit_script(es)))
+    return out
+
+
+def one_history(ctx, rng, nops, cfg=None, script=None, impl_cfg=None):
     cfg = cfg or gen_cfg(rng)
-    h = L1(cfg)
+    h = L1(impl_cfg or cfg)
     try:
         ops, lines = [], []
         gen = gen_ops_c03(rng, cfg)
@@ -196,6 +276,14 @@ def run(ctx):
         ctx.case_done(tuple(lines), nontrivial=any('fork:' in l or 'BACKOFF' in l for l in lines))
     for cfg, script in c01.CORPUS:
         add(*one_history(ctx, rng, len(script), cfg, script))
+    # the policy taken from configuration text (real parser -> real ProcessConfig -> the same state machine)
+    for opts, cfg, script in _written_corpus():
+        r = written_history(ctx, rng, len(script), opts, cfg, script)
+        if r: add(*r)
+    for _ in range(ctx.n(300, 3000)):
+        opts, cfg = gen_written(rng)
+        r = written_history(ctx, rng, rng.choice([8, 15, 30]), opts, cfg)
+        if r: add(*r)
     total = ctx.n(5000, 60000)
     done = 0
     while done < total:             # in chunks, so that a thorough run does not hold every trace in memory
@@ -212,7 +300,13 @@ def replay(ctx, data):
     inp = data['input']
     cfg = inp['cfg']
     ops = [dict(o, spawn=tuple(o['spawn'])) if 'spawn' in o else o for o in inp['ops']]
-    cfg2, ops2, lines = one_history(ctx, ctx.rng, len(ops), cfg, ops)
+    if cfg.get('written'):
+        r = written_history(ctx, ctx.rng, len(ops), [tuple(o) for o in cfg['written']], {k: v for k, v in cfg.items() if k != 'written'}, ops)
+        if r is None:
+            return
+        cfg2, ops2, lines = r
+    else:
+        cfg2, ops2, lines = one_history(ctx, ctx.rng, len(ops), cfg, ops)
     monitor(ctx, cfg, ops, lines)
     ctx.correspond('proc', [(cfg_line(cfg), [op_line(o) for o in ops])], [lines])
 
